@@ -404,8 +404,7 @@ class Interp:
                 raise OutsideSubset(f'constructor of {f.__name__} with symbolic arguments')
             return obj
         mod = getattr(getattr(f, '__func__', f), '__module__', '') or ''
-        if mod.split('.')[0] in ('pyvc', 'specs', 'z3', 'sympy') or (mod.split('.')[0] in ('contracts', 'harness')
-                                                                      and getattr(f, '__name__', '') not in ('call', 'run_call')):
+        if mod.split('.')[0] in ('pyvc', 'specs', 'z3', 'sympy'):
             # verification-side code (specification helpers, z3 API) is never interpreted
             return self.native(f, args, kw)
         if inspect.isfunction(f):
